@@ -1253,6 +1253,13 @@ func (fc *FnCtx) conversion(st *State, to types.Type, x Term, pos token.Pos) Ter
 	case so == SInt && x.Sort == SFlt:
 		fc.declareFun("flt2int", []string{SFlt}, SInt)
 		t := Term{S: fmt.Sprintf("(flt2int %s)", x.S), Sort: SInt, T: to}
+		// truncation toward zero keeps the sign (magnitudes are not modelled)
+		zero := fc.fltLit("0", types.Typ[types.Float64])
+		fc.declareFun("fge", []string{SFlt, SFlt}, SBool)
+		fc.declareFun("fle", []string{SFlt, SFlt}, SBool)
+		fc.assumeGlobal(boolT(fmt.Sprintf("(=> (fge %s %s) (>= %s 0))", x.S, zero.S, t.S)))
+		fc.assumeGlobal(boolT(fmt.Sprintf("(=> (fle %s %s) (<= %s 0))", x.S, zero.S, t.S)))
+		fc.assumptions["float: converting a float64 to an integer keeps its sign (truncation toward zero; out-of-range conversions are not modelled)"] = true
 		return t
 	}
 	fc.note("unmodelled conversion to %s at %s", types.TypeString(to, nil), fc.posStr(pos))
